@@ -188,7 +188,13 @@ func c05Identity(c *mon.Ctx, r *mon.Rand) {
 			progs = append(progs, pool.prog(r, 4))
 		}
 	}
-	desc := map[string]interface{}{"root": rc, "programs": progs, "shards": shards, "cached": cached}
+	// half of the cases: the caller owns ONE map object and refills it for every
+	// Tagged call of every program
+	var reuseMap map[string]string
+	if r.Bool() {
+		reuseMap = map[string]string{}
+	}
+	desc := map[string]interface{}{"root": rc, "programs": progs, "shards": shards, "cached": cached, "caller_refills_one_map_for_every_tagged_call": reuseMap != nil}
 	if c.WantSample() {
 		c.Sample(desc)
 	}
@@ -217,7 +223,12 @@ func c05Identity(c *mon.Ctx, r *mon.Rand) {
 		root, _ = vNewRoot(opts, 0, shards)
 		for pi, p := range progs {
 			ids, _ := rc.trace(p)
-			scs := p.clone().apply(root)
+			var scs []tally.Scope
+			if reuseMap != nil {
+				scs = p.clone().applyReusing(root, reuseMap)
+			} else {
+				scs = p.clone().apply(root)
+			}
 			for i := range ids {
 				nodes = append(nodes, node{ids[i], ids[i].key(), ids[i].canonical(), scs[i], fmt.Sprintf("program %d step %d", pi, i)})
 			}
